@@ -90,6 +90,7 @@ ASSUMPTIONS = [
 ]
 
 KINDS = ["kexa", "kexb", "kexc"]
+LATE_KIND = "kexd"      # a kind discovered after the start-up (second spawn_missing_watchers batch)
 GROUP, VERSION = "kopf.dev", "v1"
 F1_SIG = {"site": "Store._replace", "shape": "a new value that == the stored one (True/1/0/False) is not stored"}
 F2_SIG = {"site": "OperatorIndexer.replace", "shape": "a non-dict Mapping result is unpacked by key (docs: strictly dict)"}
@@ -517,7 +518,19 @@ def gen_gate_case(rng: random.Random) -> dict:
                 items.append({"delay": rng.choice(DELAYS), "type": None, "uid": u})
             items.append({"delay": rng.choice(DELAYS), "listed": True})
         streams[k["name"]] = items
-    return {"kind": "gate", "kinds": kinds, "streams": streams, "index_delay": index_delay,
+    late = None
+    if rng.random() < 0.3:
+        items = []
+        for _ in range(rng.choice([0, 1, 2])):
+            uid += 1
+            u = f"{LATE_KIND}-{uid}"
+            items.append({"delay": rng.choice(DELAYS), "type": None, "uid": u})
+            index_delay[u] = rng.choice(DELAYS)
+        items.append({"delay": rng.choice(DELAYS), "listed": True})
+        streams[LATE_KIND] = items
+        late = {"delay": rng.choice([1 / 64, 1 / 4, 1.0, 3.0]),
+                "kinds": [{"name": LATE_KIND, "indexed": rng.random() < 0.8}]}
+    return {"kind": "gate", "kinds": kinds, "late": late, "streams": streams, "index_delay": index_delay,
             "toggle_delay": [rng.choice([0, 0, 0, 1 / 64, 1 / 16, 1 / 4]) for _ in range(len(kinds) + 1)],
             "obj_toggle_delay": rng.choice([0, 0, 0, 1 / 64, 1 / 16, 1 / 4]),
             "idle_timeout": rng.choice([5.0, 5.0, 0.25, 1 / 16]),
@@ -537,8 +550,13 @@ async def run_gate_case(case: dict) -> dict:
 
     labels: list[list] = []          # the label trace for the Lean LTS, each with a snapshot
     obslog: list[tuple] = []         # implementation-level observations for the oracle
-    kinds = [k["name"] for k in case["kinds"]]
-    is_indexed = {k["name"]: k["indexed"] for k in case["kinds"]}
+    late = case.get("late") or None
+    all_kinds = case["kinds"] + (late["kinds"] if late else [])
+    kinds = [k["name"] for k in all_kinds]
+    first_kinds = [k["name"] for k in case["kinds"]]
+    is_indexed = {k["name"]: k["indexed"] for k in all_kinds}
+    batch: list[str] = []            # the kinds the running spawn_missing_watchers call is to spawn
+    spawned_kinds: set[str] = set()
     resources = {k: references.Resource(GROUP, VERSION, k, namespaced=False) for k in kinds}
     by_resource = {r: k for k, r in resources.items()}
     cur_obj: "dict[asyncio.Task, tuple[str, str]]" = {}
@@ -555,9 +573,11 @@ async def run_gate_case(case: dict) -> dict:
 
         def is_on(self) -> bool:
             res = super().is_on()
-            if sys._getframe(1).f_code.co_name == "watcher":      # the check before a per-object toggle
+            frame = sys._getframe(1)
+            if frame.f_code.co_name == "watcher":                 # the check before a per-object toggle
                 k = watcher_of.get(asyncio.current_task())
-                labels.append(["check", k, res, self.snap()])
+                key = frame.f_locals.get("key")
+                labels.append(["check", k, str(key[1]) if key else None, res, self.snap()])
             return res
 
         async def make_toggle(self, *a: Any, name: str | None = None, **kw: Any) -> aiotoggles.Toggle:
@@ -569,7 +589,7 @@ async def run_gate_case(case: dict) -> dict:
                 await asyncio.sleep(case["obj_toggle_delay"])   # the gap between is_on() and adding the toggle
             t = await super().make_toggle(*a, name=name, **kw)
             if name == "orchestration blocker":
-                labels.append(["spawnBegin", [[k, is_indexed[k]] for k in kinds], self.snap()])
+                labels.append(["spawnBegin", [[k, is_indexed[k]] for k in batch if k not in spawned_kinds], self.snap()])
             return t
 
         async def drop_toggle(self, toggle: aiotoggles.Toggle) -> None:
@@ -624,9 +644,15 @@ async def run_gate_case(case: dict) -> dict:
         if case.get("handler_delay"):
             await asyncio.sleep(case["handler_delay"])
 
+    def when_fn(uid: str, **_: Any) -> bool:
+        if uid in case.get("filter_raises", ()):
+            raise RuntimeError("scripted failure in a when= filter")
+        return True
+
     for k in kinds:
         if is_indexed[k]:
-            kopf.index(GROUP, VERSION, k, id=f"idx_{k}", param=k, registry=registry)(index_fn)
+            kopf.index(GROUP, VERSION, k, id=f"idx_{k}", param=k, registry=registry,
+                       when=when_fn if case.get("filter_raises") else None)(index_fn)
         kopf.on.event(GROUP, VERSION, k, id=f"ev_{k}", param=k, registry=registry)(event_fn)
 
     settings = configuration.OperatorSettings()
@@ -661,6 +687,7 @@ async def run_gate_case(case: dict) -> dict:
 
     def watcher_logged(**kw: Any) -> Any:
         k = by_resource[kw["resource"]]
+        spawned_kinds.add(k)
         labels.append(["spawn", k, gate.snap()])
 
         async def run() -> None:
@@ -729,10 +756,18 @@ async def run_gate_case(case: dict) -> dict:
         ensemble = orchestration.Ensemble(
             operator_indexed=gate, operator_paused=paused,
             peering_missing=await paused.make_toggle(name="peering CRD is missing"))
+        batch[:] = first_kinds
         await orchestration.spawn_missing_watchers(
             processor=processor, settings=settings,
-            indexed_resources={resources[k] for k in kinds if is_indexed[k]},
-            watched_resources=[resources[k] for k in kinds], watched_namespaces=[None], ensemble=ensemble)
+            indexed_resources={resources[k] for k in first_kinds if is_indexed[k]},
+            watched_resources=[resources[k] for k in first_kinds], watched_namespaces=[None], ensemble=ensemble)
+        if late:                                    # a kind is discovered later: the orchestrator adjusts again
+            await asyncio.sleep(late["delay"])
+            batch[:] = kinds
+            await orchestration.spawn_missing_watchers(
+                processor=processor, settings=settings,
+                indexed_resources={resources[k] for k in kinds if is_indexed[k]},
+                watched_resources=[resources[k] for k in kinds], watched_namespaces=[None], ensemble=ensemble)
         tasks = list(ensemble.watcher_tasks.values())
         horizon = 2.0 + sum(i["delay"] for its in case["streams"].values() for i in its) \
             + sum(case["index_delay"].values()) + sum(case["toggle_delay"]) \
@@ -756,7 +791,8 @@ def oracle_gate(case: dict, obs: dict) -> list[tuple[str, dict, dict]]:
     listings went through its index function. Reads the stream log, the index-function log and the
     handler log only."""
     fails = []
-    indexed = {k["name"] for k in case["kinds"] if k["indexed"]}
+    indexed = {k["name"] for k in case["kinds"] if k["indexed"]}      # the start-up batch
+    late_indexed = {k["name"] for k in ((case.get("late") or {}).get("kinds") or []) if k["indexed"]}
     listed: set[str] = set()
     initial: set[tuple[str, str]] = set()
     indexed_once: set[tuple[str, str]] = set()
@@ -765,7 +801,7 @@ def oracle_gate(case: dict, obs: dict) -> list[tuple[str, dict, dict]]:
     for n, o in enumerate(obs["obs"]):
         if o[0] == "yield":
             delivered += 1
-            if o[1] in indexed and o[1] not in listed and o[3] is None:
+            if o[1] in (indexed | late_indexed) and o[1] not in listed and o[3] is None:
                 initial.add((o[1], o[2]))
         elif o[0] == "listed-yield":
             listed.add(o[1])
@@ -773,8 +809,10 @@ def oracle_gate(case: dict, obs: dict) -> list[tuple[str, dict, dict]]:
             indexed_once.add((o[1], o[2]))
         elif o[0] == "handler-start":
             started += 1
-            missing_kinds = sorted(indexed - listed)
-            missing_objs = sorted(initial - indexed_once)
+            # a kind discovered later holds back (only) its own objects until it is listed and indexed
+            own = {o[1]} & late_indexed
+            missing_kinds = sorted((indexed | own) - listed)
+            missing_objs = sorted(x for x in initial - indexed_once if x[0] in indexed | own)
             # objects of kinds whose listing is still running are covered by `missing_kinds`
             if missing_kinds or missing_objs:
                 fails.append((f"handler for {o[1]}/{o[2]} started (observation #{n}) while kinds {missing_kinds} were not listed "
